@@ -10,6 +10,47 @@ HEADER = "From Qib Require Import TN.TNCheck.\n"
 CAP = 40000
 
 
+SIG_REN_VT = "rename_tensor:virtual-tensor-renamed-away:network-no-longer-consistent"
+SIG_TR_PART = "transpose:axes-not-a-permutation-of-all-open-axes-accepted:network-no-longer-consistent"
+SIG_MG_DIM = "merge:joined-axes-of-unequal-dimension-accepted:network-no-longer-consistent"
+
+
+def op_valid(kind, op, net, other=None, clash=False):
+    """Must the implementation accept this operation?  Decided from the state before the call
+    (ids present, ranges, distinctness) - independent of what the implementation then does."""
+    stn = net.net
+    if kind == "rename_tensor":
+        return op[1] in stn.tensors and op[2] not in stn.tensors
+    if kind == "rename_bond":
+        return op[1] in stn.bonds and op[2] not in stn.bonds
+    if kind == "transpose":
+        n = stn.num_open_axes
+        axes = list(reversed(range(n))) if op[1] is None else list(op[1])
+        return len(set(axes)) == len(axes) and all(-n <= a < n for a in axes)
+    if kind in ("merge", "merge_self"):
+        n1, n2 = stn.num_open_axes, other.net.num_open_axes
+        return all(0 <= a < n1 and 0 <= b < n2 for a, b in op[2]) and not clash
+    raise RuntimeError(kind)
+
+
+def known_class(kind, op, net, other=None):
+    """The three caller obligations the code does not validate (KNOWN FINDINGS): returns the sig
+    when the operation is in one of these classes, else None.  Decided from the input alone."""
+    stn = net.net
+    if kind == "rename_tensor" and op[1] == -1 and -1 in stn.tensors and op[2] not in stn.tensors:
+        return SIG_REN_VT
+    if kind == "transpose" and op[1] is not None:
+        n = stn.num_open_axes
+        axes = list(op[1])
+        if len(set(axes)) == len(axes) and all(-n <= a < n for a in axes) and sorted(a % n for a in axes) != list(range(n)):
+            return SIG_TR_PART
+    if kind in ("merge", "merge_self"):
+        s1, s2 = stn.tensors[-1].shape, other.net.tensors[-1].shape
+        if all(0 <= a < len(s1) and 0 <= b < len(s2) for a, b in op[2]) and any(s1[a] != s2[b] for a, b in op[2]):
+            return SIG_MG_DIM
+    return None
+
+
 def exec_sequence(desc, ops):
     """Run the implementation on an operation sequence.  Returns (records, fails, final):
     records: per op  dict(op=..., obs=None | (stn snapshot term data...)),
@@ -34,47 +75,74 @@ def exec_sequence(desc, ops):
         cnt0 = (net.num_tensors, net.num_bonds, net.num_open_axes)
         accepted, clash = True, False
         term = None
+        other = None
+        valid, kcls = None, None
         try:
             if kind == "rename_tensor":
                 term = "ORenT %s %s" % (ct.z(op[1]), ct.z(op[2]))
+                valid, kcls = op_valid(kind, op, net), known_class(kind, op, net)
                 net.net.rename_tensor(op[1], op[2])
             elif kind == "rename_bond":
                 term = "ORenB %s %s" % (ct.z(op[1]), ct.z(op[2]))
+                valid = op_valid(kind, op, net)
                 net.net.rename_bond(op[1], op[2])
             elif kind == "transpose":
                 axes = op[1]
-                eff = list(reversed(range(net.num_open_axes))) if axes is None else list(axes)
-                term = "OTrans %s" % tn.nl(eff)
+                n = net.num_open_axes
+                raw = list(reversed(range(n))) if axes is None else list(axes)
+                valid, kcls = op_valid(kind, op, net), known_class(kind, op, net)
+                # Python indexes shape[ax] / bids[ax]: a negative axis counts from the end
+                eff = [a % n if -n <= a < 0 else a for a in raw]
+                if all(a >= 0 for a in eff) and (len(set(eff)) == len(eff) or len(set(raw)) != len(raw)):
+                    term = "OTrans %s" % tn.nl(eff)
+                # else (negative axes that repeat an axis: accepted by the code, outside the model's nat axes):
+                # no model step; the sequence stops after this operation
                 net.transpose(None if axes is None else list(axes))
-            elif kind == "merge":
-                other = tn.build(op[1])
+            elif kind in ("merge", "merge_self"):
+                other = net if kind == "merge_self" else tn.build(op[1])
                 for t in other.net.tensors.values():
                     refs.code(t.dataref)
                 joins = [tuple(j) for j in op[2]]
                 ordT = list(net.net.tensors.keys() & other.net.tensors.keys())
                 ordB = list(net.net.bonds.keys() & other.net.bonds.keys())
-                term = "OMerge %s %s %s %s" % (tn.net_term(other.net, refs),
-                                               ct.lst([ct.pair(ct.nat(a), ct.nat(b)) for a, b in joins]),
-                                               tn.zl(ordT), tn.zl(ordB))
+                if all(a >= 0 and b >= 0 for a, b in joins):
+                    term = "OMerge %s %s %s %s" % (tn.net_term(other.net, refs),
+                                                   ct.lst([ct.pair(ct.nat(a), ct.nat(b)) for a, b in joins]),
+                                                   tn.zl(ordT), tn.zl(ordB))
                 osnap = (tn.snapshot(other.net), {k: np.array(v) for k, v in other.data.items()})
                 ovalue = tn.ref_dense(other.net, other.data)
                 ocnt = (other.num_tensors, other.num_bonds, other.num_open_axes)
+                ovb = other_vbids(other)
                 clash = any(k in net.data and not np.array_equal(net.data[k], other.data[k]) for k in other.data)
-                others.append((other, osnap))
+                valid, kcls = op_valid(kind, op, net, other, clash), known_class(kind, op, net, other)
+                if kind == "merge":
+                    others.append((other, osnap))
                 try:
                     net.merge(other, list(joins))
+                    if clash:
+                        # the data dictionaries disagree on a key: the merged network cannot mean the
+                        # contraction of the two values; the code must refuse (ValueError)
+                        fails.append(("merge:data-clash-not-refused", "ValueError", "accepted"))
                 except ValueError as e:
                     if clash and "do not match" in str(e):
                         pass          # raised after the symbolic merge (recorded only; outside the property text)
                     else:
                         raise
-                if (tn.snapshot(other.net), ) != (osnap[0], ) or any(not np.array_equal(other.data[k], osnap[1][k]) for k in osnap[1]) \
-                        or set(other.data) != set(osnap[1]):
+                if kind == "merge" and ((tn.snapshot(other.net), ) != (osnap[0], ) or any(not np.array_equal(other.data[k], osnap[1][k]) for k in osnap[1])
+                                        or set(other.data) != set(osnap[1])):
                     fails.append(("merge:second-operand-modified", "other unchanged", "other changed"))
             else:
                 raise RuntimeError("unknown op " + kind)
         except ValueError:
             accepted = False
+        except IndexError as e:
+            if kind == "transpose" and valid is False:
+                accepted = False          # an axis out of range: refused by IndexError
+            else:
+                fails.append(("%s:exception:%s" % (kind, type(e).__name__), "ValueError or accept", repr(e)))
+                rec["steps"].append({"op": op, "term": term, "obs": "crash"})
+                stopped = True
+                break
         except Exception as e:
             fails.append(("%s:exception:%s" % (kind, type(e).__name__), "ValueError or accept", repr(e)))
             rec["steps"].append({"op": op, "term": term, "obs": "crash"})
@@ -83,13 +151,33 @@ def exec_sequence(desc, ops):
         if not accepted:
             if tn.snapshot(net.net) != before:
                 fails.append((kind + ":refused-but-state-changed", "unchanged", "changed"))
-            rec["steps"].append({"op": op, "term": term, "obs": None})
+            if valid:
+                fails.append((kind + ":refuses-valid-operation", "accepted", "ValueError"))
+            rec["steps"].append({"op": op, "term": term, "obs": None, "skip": term is None})
             continue
+        if valid is False and not clash:
+            fails.append((kind + ":accepts-invalid-operation", "ValueError", "accepted"))
         cons = bool(safe_consistent(net.net))
-        cnt = (net.num_tensors, net.num_bonds, net.num_open_axes)
+        try:
+            cnt = (net.num_tensors, net.num_bonds, net.num_open_axes)
+        except RuntimeError:
+            cnt = (0, net.num_bonds, 0)       # no virtual tensor any more (model: counts default to 0)
         rec["steps"].append({"op": op, "term": term,
-                             "obs": (tn.net_term(net.net, refs), cons, cnt)})
+                             "obs": (tn.net_term(net.net, refs), cons, cnt), "skip": term is None})
         # ---------------- oracles on the implementation
+        if kcls is not None:
+            # one of the three unvalidated caller obligations: the property fails on this input in
+            # the listed way (is_consistent() False) - anything else is a new behaviour
+            if cons != tn.ref_consistent(net.net):
+                fails.append((kind + ":is_consistent-disagrees-with-exact-incidence", tn.ref_consistent(net.net), cons))
+            elif not cons:
+                fails.append((kcls, True, False))
+            # else: benign instance (e.g. the repeated and the dropped axis share a bond): no violation here
+            stopped = True
+            break
+        if term is None:
+            stopped = True
+            break
         if not cons:
             fails.append((kind + ":is_consistent-false-after-accepted-op", True, False))
         if not tn.ref_consistent(net.net):
@@ -118,7 +206,7 @@ def exec_sequence(desc, ops):
                 return x
             fused = 0
             for a, b in joins:
-                ra, rb = find(("a", before_vbids[a])), find(("b", other_vbids(other)[b]))
+                ra, rb = find(("a", before_vbids[a])), find(("b", ovb[b]))
                 if ra != rb:
                     uf[rb] = ra
                     fused += 1
@@ -161,6 +249,71 @@ def gen_ops(rng, desc, thorough):
         stn = scratch.net
         r = rng.random()
         try:
+            g = rng.random()
+            if g < 0.10:
+                # ---- inputs at and beyond the edge of what the code validates
+                n = stn.num_open_axes
+                q = rng.randrange(8)
+                if q == 0:
+                    op = ["rename_tensor", -1, rng.randint(-6, 12)]            # the virtual tensor (KNOWN FINDING when accepted)
+                elif q == 1 and n >= 2:
+                    axes = list(range(n)); rng.shuffle(axes)
+                    op = ["transpose", axes[:rng.randint(1, n - 1)]]           # not all axes (KNOWN FINDING)
+                elif q == 2 and n >= 1:
+                    axes = list(range(n)); rng.shuffle(axes)
+                    op = ["transpose", [a - n if rng.random() < 0.5 else a for a in axes]]   # negative axes, a permutation
+                elif q == 3 and n >= 2:
+                    axes = list(range(n)); rng.shuffle(axes)
+                    axes[0] = axes[1] - n                                       # repeats an axis through a negative index (KNOWN FINDING)
+                    op = ["transpose", axes]
+                elif q == 4:
+                    axes = list(range(n)); rng.shuffle(axes)
+                    axes[rng.randrange(n)] = rng.choice([n, n + 1, -n - 1]) if n else 0
+                    op = ["transpose", axes if n else [0]]                      # an axis out of range: refused
+                elif q == 5:
+                    op = ["merge_self", None, []]
+                    if n and rng.random() < 0.7:
+                        sh = stn.tensors[-1].shape
+                        pairs = [(a, b) for a in range(n) for b in range(n) if sh[a] == sh[b]]
+                        rng.shuffle(pairs)
+                        for a, b in pairs[:rng.randint(0, 2)]:
+                            if all(a != x and b != y for x, y in op[2]):
+                                op[2].append([a, b])
+                    p, o = tn.ref_size(stn)
+                    if (p * p) * max(o * o, 1) > CAP or nmerge >= 3:
+                        continue
+                    nmerge += 1
+                else:
+                    odesc, _ = tn.gen_net(rng, nt_max=2, open_max=3, cap=200, refprefix="x%d_" % len(ops))
+                    other = tn.build(odesc)
+                    s1, s2 = stn.tensors[-1].shape, other.net.tensors[-1].shape
+                    if q == 6:
+                        bad = [(a, b) for a in range(len(s1)) for b in range(len(s2)) if s1[a] != s2[b]]
+                        if not bad:
+                            continue
+                        joins = [list(rng.choice(bad))]                         # unequal dimensions (KNOWN FINDING)
+                    else:
+                        a = rng.randrange(len(s1)) if len(s1) else 0
+                        joins = [rng.choice([[a, len(s2)], [a, len(s2) + 1], [a, -1], [-1, 0], [len(s1), 0]])]   # out of range: refused
+                    op = ["merge", odesc, joins]
+                ops.append(op)
+                # simulate; the sequence ends after an operation that leaves an inconsistent network
+                try:
+                    if op[0] == "rename_tensor":
+                        stn.rename_tensor(op[1], op[2])
+                    elif op[0] == "transpose":
+                        scratch.transpose(list(op[1]))
+                    elif op[0] == "merge_self":
+                        scratch.merge(scratch, [tuple(j) for j in op[2]])
+                    else:
+                        scratch.merge(tn.build(op[1]), [tuple(j) for j in op[2]])
+                except (ValueError, IndexError):
+                    continue
+                except Exception:
+                    break
+                if not safe_consistent(stn):
+                    break
+                continue
             if r < 0.22:
                 tids = [t for t in stn.tensors if t != -1]
                 if not tids:
@@ -276,11 +429,39 @@ DIRECTED = [
 ]
 
 
+_G = {"tensors": [[0, [2, 3, 2], [0, 1, 2], "a"], [-1, [2, 3, 2], [0, 1, 2], None]], "bonds": None,
+      "data": {"a": {"shape": [2, 3, 2], "re": list(range(1, 13)), "im": None}}}
+_H = {"tensors": [[4, [2, 3], [7, 8], "h"], [-1, [2, 3], [7, 8], None]], "bonds": None,
+      "data": {"h": {"shape": [2, 3], "re": [1, 0, 2, -1, 1, 3], "im": None}}}
+DIRECTED += [
+    # the three caller obligations the code does not validate (KNOWN FINDINGS, theorem guards)
+    ("rename-virtual-tensor", _G, [["rename_tensor", -1, 5]]),
+    ("transpose-not-all-axes", _G, [["transpose", [2]]]),
+    ("transpose-negative-axis-repeats-an-axis", _G, [["transpose", [-1, 0, 2]]]),
+    ("merge-unequal-dimensions", _G, [["merge", _H, [[0, 1]]]]),
+    # edges that must be refused / accepted
+    ("transpose-negative-axes-permutation", _G, [["transpose", [-1, 0, -2]], ["transpose", [1, -3, 2]]]),
+    ("transpose-axis-out-of-range", _G, [["transpose", [0, 1, 3]], ["transpose", [0, -4, 1]], ["transpose", [0, 1, 2]]]),
+    ("merge-join-out-of-range", _G, [["merge", _H, [[0, 2]]], ["merge", _H, [[3, 0]]], ["merge", _H, [[0, -1]]],
+                                     ["merge", _H, [[-1, 0]]], ["merge", _H, [[0, 0]]]]),
+    ("merge-with-itself", _G, [["merge_self", None, [[0, 2]]], ["merge_self", None, []]]),
+    ("rename-to-existing-and-missing", _G, [["rename_tensor", 0, -1], ["rename_tensor", 7, 8], ["rename_tensor", 0, 0],
+                                            ["rename_bond", 1, 2], ["rename_bond", 9, 3], ["rename_bond", 1, -1], ["rename_tensor", 0, -7]]),
+    # data dictionaries that disagree on a key: must be refused
+    ("merge-data-clash", _G, [["merge", {"tensors": [[1, [2], [0], "a"], [-1, [2], [0], None]], "bonds": None,
+                                         "data": {"a": {"shape": [2], "re": [1, 1], "im": None}}}, [[0, 0]]]]),
+]
+
+
 def case_term(rec, net, fails):
     """CSeq term for one executed sequence"""
     steps = []
     for s in rec["steps"]:
-        if s["obs"] == "crash" or s["term"] is None:
+        if s["obs"] == "crash":
+            break
+        if s["term"] is None:
+            if s["obs"] is None:
+                continue          # refused and not representable in the model (negative index): state unchanged
             break
         if s["obs"] is None:
             o = "None"
@@ -289,7 +470,7 @@ def case_term(rec, net, fails):
             o = "(Some %s)" % ct.pair(d, ct.b(c), ct.pair(ct.nat(k[0]), ct.nat(k[1]), ct.nat(k[2])))
         steps.append(ct.pair("(%s)" % s["term"], o))
     final = "None"
-    if not rec.get("stopped") and not rec.get("clash") and len(steps) == len(rec["steps"]):
+    if not rec.get("stopped") and not rec.get("clash") and len(steps) == len([x for x in rec["steps"] if not x.get("skip")]):
         p, o = tn.ref_size(net.net)
         if p * max(o, 1) <= CAP:
             final = "(Some %s)" % tn.dense_term(tn.ref_dense(net.net, net.data))
@@ -305,7 +486,9 @@ def run(ctx):
                        "for every order); TensorNetwork.merge's data-dictionary union is not modelled (datarefs are codes); "
                        "'never modifies the second operand' is checked on the implementation by deep snapshots")
     ctx.assumes.append("model = /repo with the proposed repairs proposed_fixes/C08-merge-dedupe-del-axes.diff, C08-transpose-default-axes.diff and C07-is-consistent-leg-count.diff; joins are dimension-"
-                       "compatible and the transposition is a permutation (the code validates neither); the virtual tensor -1 is not renamed")
+                       "compatible and the transposition is a permutation (the code validates neither); the virtual tensor -1 is not renamed "
+                       "- these three are theorem guards AND known findings: the harness runs such inputs on every run, the model reproduces "
+                       "the inconsistent network exactly, C08_*_refuted prove the guards necessary")
     ctx.rules.append("random consistent networks (0-6 tensors, degree<=4, bond dims 1-3, hyper-bonds, multi-edges, self-traces, shared "
                      "open bonds, identity wires, negative/colliding ids) x random operation sequences (length<=12; rename_tensor, "
                      "rename_bond, transpose incl. refused ones, merge with colliding ids / shared datarefs equal+unequal / joins "
@@ -328,7 +511,7 @@ def run(ctx):
             ctx.fail(sig, tn.to_jsonable(inp), exp, obs)
         for s in rec["steps"]:
             ctx.count("op_%s_%s" % (s["op"][0], "refused" if s["obs"] is None else ("crash" if s["obs"] == "crash" else "ok")))
-            if s["op"][0] == "merge" and s["obs"] not in (None, "crash"):
+            if s["op"][0] in ("merge", "merge_self") and s["obs"] not in (None, "crash"):
                 js = s["op"][2]
                 if len({j[0] for j in js}) < len(js) or len({j[1] for j in js}) < len(js):
                     ctx.count("merge_with_reused_join_axis")
